@@ -157,6 +157,31 @@ func checkEmWiring(c *core.Ctx) {
 				continue
 			}
 			idx := info.Defs[job.Type.Params.List[0].Names[0]]
+			// locals bound to a component estimator (`est := obj.estimators[c]`)
+			estLocals := map[types.Object]bool{}
+			ast.Inspect(job.Body, func(x ast.Node) bool {
+				if as, ok := x.(*ast.AssignStmt); ok && len(as.Lhs) == 1 && len(as.Rhs) == 1 && strings.Contains(exprStr(as.Rhs[0]), "estimators") {
+					if id, ok := as.Lhs[0].(*ast.Ident); ok {
+						if o := info.Defs[id]; o != nil {
+							estLocals[o] = true
+						}
+					}
+				}
+				return true
+			})
+			mentionsEstimator := func(e ast.Expr) bool {
+				if strings.Contains(exprStr(e), "estimators") {
+					return true
+				}
+				found := false
+				ast.Inspect(e, func(x ast.Node) bool {
+					if id, ok := x.(*ast.Ident); ok && estLocals[info.Uses[id]] {
+						found = true
+					}
+					return true
+				})
+				return found
+			}
 			bad := ""
 			var bpos token.Pos
 			ast.Inspect(job.Body, func(x ast.Node) bool {
@@ -200,7 +225,7 @@ func checkEmWiring(c *core.Ctx) {
 				case "SetParameters":
 					if sel, ok := ast.Unparen(ce.Fun).(*ast.SelectorExpr); ok {
 						if ix, ok := ast.Unparen(sel.X).(*ast.IndexExpr); ok && strings.HasSuffix(exprStr(ix.X), "Edist") && len(ce.Args) == 1 {
-							if strings.Contains(exprStr(ce.Args[0]), "estimators") && fieldOf(em, ix.X) == A {
+							if mentionsEstimator(ce.Args[0]) && fieldOf(em, ix.X) == A {
 								instOK = true
 							}
 						}
@@ -214,7 +239,7 @@ func checkEmWiring(c *core.Ctx) {
 			hasSetParams := false
 			ast.Inspect(job.Body, func(x ast.Node) bool {
 				if ce, ok := x.(*ast.CallExpr); ok && calleeName(ce) == "SetParameters" {
-					if sel, ok := ast.Unparen(ce.Fun).(*ast.SelectorExpr); ok && strings.Contains(exprStr(sel.X), "estimators") {
+					if sel, ok := ast.Unparen(ce.Fun).(*ast.SelectorExpr); ok && mentionsEstimator(sel.X) {
 						hasSetParams = true
 					}
 				}
